@@ -152,6 +152,14 @@ def selftest(universe=('a', 'b', 'c'), maxlen=3):
                     g.append(v)
             assert g == cur
             assert (len(u) == len(xs)) == nd(xs) and (not nd(xs) or u == xs)
+            # discard_fold_present: discarding the items of a duplicate-free xs that are all in the duplicate-free s = removing them
+            if nd(s) and nd(xs) and all(v in s for v in xs):
+                dsc, rem = list(s), list(s)
+                for k, v in enumerate(xs):
+                    if v in dsc:
+                        dsc.remove(v)
+                    rem.remove(v)           # never raises: v is still present
+                    assert dsc == rem and nd(rem) and all((y in rem) == (y in s and y not in xs[:k + 1]) for y in universe)
             n += 1
         # fold_self / keep_self: adding s to itself and keeping the elements of s that are in s give s
         g = list(s)
@@ -212,6 +220,39 @@ def st_erase_fold_keep(s, T, Tc):
     y = Const('y', Name)
     e = keep(s, Tc)
     return Implies(And(nodup(s), ForAll([y], Select(Tc, y) == Not(Select(T, y)))), erase_fold(s, e, slen(e)) == keep(s, T))
+
+
+def discard1(s, x):
+    """set.discard on the item sequence of a Unique: x removed if present (contract of Unique.discard, unit tools.Unique.discard)"""
+    return If(mem(s, x), erase(s, x), s)
+
+
+def discard_fold(s, xs, k):
+    """discard_fold(s, xs, k): xs[0..k-1] discarded from s one by one (what MutableSet.__isub__ does, unit stdlib.MutableSet.__isub__).
+    The function symbol is made on demand, never at import time (it exists only in the units that use it, with `discard_axioms`)."""
+    return Function('discard_fold', Seq, Seq, I, Seq)(s, xs, k)
+
+
+def discard_axioms():
+    """definition of discard_fold by recursion on k (the counterpart of E0 / E1 for erase_fold)"""
+    s, xs = Const('s', Seq), Const('xs', Seq)
+    k = Int('k')
+    return [('DF0', ForAll([s, xs], discard_fold(s, xs, 0) == s, patterns=[discard_fold(s, xs, 0)])),
+            ('DF1', ForAll([s, xs, k], Implies(k >= 0, discard_fold(s, xs, k + 1) == discard1(discard_fold(s, xs, k), at(xs, k))),
+                           patterns=[discard_fold(s, xs, k + 1)]))]
+
+
+def st_discard_fold_present(s, xs, k):
+    """lemma.discard_fold_present (proved by induction on k in unit lemma.discard_fold_present): discarding, one by one, the first k
+    items of a duplicate-free xs all of whose items are in the duplicate-free s is removing them one by one (every item is still
+    present when its turn comes): discard_fold = erase_fold, the result is duplicate-free and holds exactly the other items of s."""
+    y = Const('y', Name)
+    t = Int('t')
+    e = erase_fold(s, xs, k)
+    return Implies(And(0 <= k, k <= slen(xs), nodup(s), nodup(xs),
+                       ForAll([t], Implies(And(0 <= t, t < slen(xs)), mem(s, at(xs, t))), patterns=[at(xs, t)])),
+                   And(discard_fold(s, xs, k) == e, nodup(e),
+                       ForAll([y], mem(e, y) == And(mem(s, y), Not(infirst(xs, y, k))), patterns=[mem(e, y)])))
 
 
 def st_fold_len(xs):
